@@ -22,7 +22,7 @@ type C02Case struct {
 func genC02(g gen.G) C02Case {
 	o := gen.WorldOpts{
 		Schema:   gen.SchemaOpts{MaxDepth: 2},
-		Cfg:      gen.CfgOpts{Violations: 6, Layout: true},
+		Cfg:      gen.CfgOpts{Violations: 6, Layout: true, HalfTyped: 6},
 		MaxPaths: 2, MaxFiles: 2, Edits: 2,
 	}
 	if g.Chance(35) {
